@@ -100,32 +100,34 @@ func (p *vkPlug) Prepare(ifi *net.Interface) error {
 }
 
 type c17Case struct {
-	Doc      dDoc     `json:"doc"`
-	State    sysState `json:"state"`
-	UpAtNS   int64    `json:"up_at_ns"` // dial attempts succeed from this instant on; -1 never
-	UpStepNS int64    `json:"up_step_ns"` // the i-th configured interface comes up this much later than the previous one
-	Links    []int64  `json:"link_events_ns"`
-	Probes   []int64  `json:"probes_ns"`
-	FwdFlips []int64  `json:"forwarding_flips_ns"`
-	StopNS   int64    `json:"stop_ns"`
-	AddrChangeNS int64 `json:"addr_change_ns"` // >0: at this instant the first addr_drop addresses and routes disappear from the system
-	AddrDrop     int   `json:"addr_drop"`
-	StateErr []int64  `json:"state_failure_toggles_ns"` // the State's forwarding read starts / stops failing at these instants
-	Autoconf []bool   `json:"autoconf"`                 // kernel autoconf value per interface (cyclic)
+	Doc          dDoc     `json:"doc"`
+	State        sysState `json:"state"`
+	UpAtNS       int64    `json:"up_at_ns"`   // dial attempts succeed from this instant on; -1 never
+	UpStepNS     int64    `json:"up_step_ns"` // the i-th configured interface comes up this much later than the previous one
+	Links        []int64  `json:"link_events_ns"`
+	Probes       []int64  `json:"probes_ns"`
+	FwdFlips     []int64  `json:"forwarding_flips_ns"`
+	StopNS       int64    `json:"stop_ns"`
+	AddrChangeNS int64    `json:"addr_change_ns"` // >0: at this instant the first addr_drop addresses and routes disappear from the system
+	AddrDrop     int      `json:"addr_drop"`
+	StateErr     []int64  `json:"state_failure_toggles_ns"` // the State's forwarding read starts / stops failing at these instants
+	Autoconf     []bool   `json:"autoconf"`                 // kernel autoconf value per interface (cyclic)
+	Overlap      bool     `json:"overlapping_scrapes"`      // every probe also runs three scrapes that overlap in time
 }
 
 type c17Probe struct {
-	At       time.Duration
-	Prepared map[string]bool
-	Fwd      map[string]bool
-	StateBad bool
-	Scrape   map[string]map[string]float64
+	At        time.Duration
+	Prepared  map[string]bool
+	Fwd       map[string]bool
+	StateBad  bool
+	Scrape    map[string]map[string]float64
 	ScrapeErr error
-	Panic    string
-	APICode  int
-	APIBody  []byte
-	Metrics  int
-	PProf    int
+	Panic     string
+	APICode   int
+	APIBody   []byte
+	Metrics   int
+	PProf     int
+	Overlap   string // non-empty: what went wrong with the overlapping scrapes
 }
 
 // c17StateAt is the system state at virtual time at (ambiguous exactly at the change).
@@ -309,6 +311,51 @@ func c17Prop(t *testing.T, k *verifkit.Kit) func(c c17Case) error {
 						h.ServeHTTP(rec, httptest.NewRequest("GET", "/debug/pprof/", nil))
 						p.PProf = rec.Code
 					}()
+					if c.Overlap && p.Panic == "" && p.ScrapeErr == nil {
+						// last in the probe (it takes a few virtual milliseconds): three scrapes that overlap in time (two Prometheus servers, a slow sysctl read):
+						// each one on its own must be as complete as a scrape that runs alone
+						w.mu.Lock()
+						old := w.stDelay
+						w.stDelay = time.Millisecond
+						w.mu.Unlock()
+						var wg sync.WaitGroup
+						outs := make([]map[string]map[string]float64, 3)
+						errs := make([]error, 3)
+						for gi := 0; gi < 3; gi++ {
+							wg.Add(1)
+							go func() {
+								defer wg.Done()
+								defer func() {
+									if r := recover(); r != nil {
+										errs[gi] = fmt.Errorf("panic: %v", r)
+									}
+								}()
+								time.Sleep(time.Duration(gi) * 700 * time.Microsecond)
+								outs[gi], errs[gi] = vkScrape(w.mm)
+							}()
+						}
+						wg.Wait()
+						w.mu.Lock()
+						w.stDelay = old
+						w.mu.Unlock()
+						keys := func(m map[string]map[string]float64) string {
+							var ks []string
+							for series, samples := range m {
+								for k := range samples {
+									ks = append(ks, series+"{"+k+"}")
+								}
+							}
+							sort.Strings(ks)
+							return strings.Join(ks, "\n")
+						}
+						for gi := range outs {
+							if errs[gi] != nil {
+								p.Overlap = fmt.Sprintf("overlapping scrape %d failed: %v", gi, errs[gi])
+							} else if a, b := keys(p.Scrape), keys(outs[gi]); a != b {
+								p.Overlap = fmt.Sprintf("overlapping scrape %d reports a different set of samples than the scrape that ran alone:\nalone:\n%s\noverlapping:\n%s", gi, a, b)
+							}
+						}
+					}
 					// a (re-)initialisation at the very instant of the probe, before or after it started
 					mu.Lock()
 					for n, v := range lastPrep {
@@ -419,6 +466,26 @@ func c17Prop(t *testing.T, k *verifkit.Kit) func(c c17Case) error {
 		}
 		debugCfg := ref.Cfg.Debug
 		for _, p := range probes {
+			if p.Overlap != "" {
+				// (only when no link event or address change falls into the few milliseconds of the overlap)
+				quiet := true
+				for _, x := range append(append(append([]int64(nil), c.Links...), c.FwdFlips...), c.AddrChangeNS) {
+					if d := time.Duration(x) - p.At; d >= -time.Millisecond && d <= 10*time.Millisecond {
+						quiet = false
+					}
+				}
+				for _, x := range c.StateErr {
+					if d := time.Duration(x) - p.At; d >= -time.Millisecond && d <= 10*time.Millisecond {
+						quiet = false
+					}
+				}
+				if time.Duration(c.UpAtNS)+time.Duration(len(ref.Cfg.Interfaces))*time.Duration(c.UpStepNS) >= p.At-time.Millisecond && time.Duration(c.UpAtNS) <= p.At+10*time.Millisecond {
+					quiet = false
+				}
+				if quiet {
+					return verifkit.Violf("C17/overlapping-scrapes-differ", "probe at %v: %s\n%s", p.At, p.Overlap, text)
+				}
+			}
 			if p.Panic != "" {
 				sig := "C17/scrape-or-api-panics"
 				switch {
@@ -750,7 +817,7 @@ func c17Gen(t *rapid.T) c17Case {
 	// document in three is all-advertising)
 	d := g.genDoc(rapid.IntRange(0, 2).Draw(t, "all-advertise") == 0, 0)
 	s := int64(time.Second)
-	c := c17Case{Doc: d, State: genSysState(t)}
+	c := c17Case{Doc: d, State: genSysState(t), Overlap: rapid.IntRange(0, 2).Draw(t, "overlap") == 0}
 	c.State.NowNS = 0
 	switch rapid.IntRange(0, 3).Draw(t, "up") {
 	case 0:
